@@ -5,7 +5,7 @@ CONSTANTS
   MaxP = 9
   MaxM = 1
   AllowArm = FALSE
-  Patched = FALSE
+  Patched = TRUE
   Families <- FamThorough
 SPECIFICATION ImplShapesSpec
 INVARIANT RcExact
